@@ -12,6 +12,8 @@
 //         thread still holds the lock), the failure was recorded and the run continues.
 #include "common.h"
 #include "CppUTest/TestHarness_c.h"
+#include "CppUTest/JUnitTestOutput.h"
+#include "CppUTest/TestFailure.h"
 #include <pthread.h>
 #include <sched.h>
 #include <atomic>
@@ -170,7 +172,7 @@ int part_a(Reader& r, bool& nontrivial, std::string& desc) {
 }
 
 // ---------------------------------------------------------------- part B: misuse while the lock is held
-struct BCase { int misuse; int fam; int size; int after_allocs; };
+struct BCase { int misuse; int fam; int size; int after_allocs; int output; };   // output: 0 string buffer, 1 collecting (keeps new-ed copies of failures, like JUnit), 2 JUnitTestOutput
 BCase g_b; int g_b_continued;
 void part_b_body(void*) {
     // runs as a test body with the thread-safe overloads ON and the default global detector/reporter
@@ -186,18 +188,39 @@ void part_b_body(void*) {
     else if (g_b.fam == 0) ::operator delete(p); else if (g_b.fam == 1) ::operator delete[](p); else cpputest_free_location(p, "b.c", 3);
     g_b_continued = 1;   // only reached when the misuse was not reported by leaving the test
 }
+// an output that, like JUnitTestOutput, keeps a heap copy of every failure it is handed: printing a failure allocates
+// through the (thread-safe) global operator new
+class CollectingOutput : public TestOutput {
+public:
+    TestFailure* kept[8]; int n = 0; char* text[8];
+    void printBuffer(const char*) CPPUTEST_OVERRIDE {}
+    void flush() CPPUTEST_OVERRIDE {}
+    void printFailure(const TestFailure& f) CPPUTEST_OVERRIDE { if (n < 8) { kept[n] = new TestFailure(f); text[n] = new char[32]; n++; } }
+    void release() { for (int i = 0; i < n; i++) { delete kept[i]; delete[] text[i]; } n = 0; }
+};
+PlatformSpecificFile null_fopen(const char*, const char*) { static int token; return &token; }
+void null_fputs(const char*, PlatformSpecificFile) {}
+void null_fclose(PlatformSpecificFile) {}
+
 int run_part_b(std::string& desc, bool& reported, long& locks, long& unlocks, int& relock) {
     g_locks = 0; g_unlocks = 0; g_contended = 0; g_relock_while_held = 0; g_held = 0; g_owner = 0; g_depth = 0; g_b_continued = 0;
     MemoryLeakDetector* det = MemoryLeakWarningPlugin::getGlobalDetector(); det->enable();
     MemoryLeakWarningPlugin::turnOnThreadSafeNewDeleteOverloads();
     size_t failures;
     {
-        TestTestingFixture fixture; verif::ExecLambda ex(part_b_body, nullptr);
-        fixture.setTestFunction(&ex);
-        fixture.runAllTests();
-        failures = fixture.getFailureCount();
+        // a private one-test run whose output is chosen by the case (all of this allocates through the thread-safe entry points)
+        StringBufferTestOutput sb; CollectingOutput co; JUnitTestOutput* ju = g_b.output == 2 ? new JUnitTestOutput : nullptr;
+        TestOutput* out = g_b.output == 0 ? (TestOutput*)&sb : g_b.output == 1 ? (TestOutput*)&co : (TestOutput*)ju;
+        {
+            TestRegistry reg; TestResult res(*out); ExecFunctionTestShell shell; verif::ExecLambda ex(part_b_body, nullptr);
+            shell.testFunction_ = &ex;
+            reg.addTest(&shell);
+            reg.runAllTests(res);
+            failures = res.getFailureCount();
+        }
         // the run continues: allocate and release again through the thread-safe entry points
         for (int i = 0; i < g_b.after_allocs; i++) { char* q = new char[16]; delete[] q; }
+        co.release(); delete ju;
     }
     locks = g_locks; unlocks = g_unlocks; relock = g_relock_while_held;
     MemoryLeakWarningPlugin::turnOffNewDeleteOverloads();
@@ -208,10 +231,11 @@ int run_part_b(std::string& desc, bool& reported, long& locks, long& unlocks, in
     return 0;
 }
 int part_b(Reader& r, bool& nontrivial, std::string& desc) {
-    g_b.misuse = (int)r.below(3); g_b.fam = (int)r.below(3); g_b.size = 1 + (int)r.below(64); g_b.after_allocs = 1 + (int)r.below(3);
+    g_b.misuse = (int)r.below(3); g_b.fam = (int)r.below(3); g_b.size = 1 + (int)r.below(64); g_b.after_allocs = 1 + (int)r.below(3); g_b.output = (int)r.below(3);
     static const char* MN[] = {"guard overrun", "release of a foreign address", "family mismatch"}; static const char* FN[] = {"new", "new[]", "malloc"};
-    desc = sfmt("B: %s on a %s block of %d bytes, then %d more allocations", MN[g_b.misuse], FN[g_b.fam], g_b.size, g_b.after_allocs);
-    verif::cls(sfmt("B:%s", MN[g_b.misuse]).c_str());
+    static const char* ON[] = {"string-buffer output", "collecting output", "JUnit output"};
+    desc = sfmt("B: %s on a %s block of %d bytes, %s, then %d more allocations", MN[g_b.misuse], FN[g_b.fam], g_b.size, ON[g_b.output], g_b.after_allocs);
+    verif::cls(sfmt("B:%s", MN[g_b.misuse]).c_str()); verif::cls(sfmt("B:%s", ON[g_b.output]).c_str());
     nontrivial = true;
     if (verif::known("C10:lock-held-after-misuse")) return 0;      // listed finding: exactly this scenario is excluded (and counted)
     bool reported; long locks, unlocks; int relock;
@@ -231,6 +255,7 @@ extern "C" void verif_init(void) {
     g_default_rep = MemoryLeakWarningPlugin::getGlobalFailureReporter();
     g_real_lock = PlatformSpecificMutexLock; g_real_unlock = PlatformSpecificMutexUnlock;
     PlatformSpecificMutexLock = seam_lock; PlatformSpecificMutexUnlock = seam_unlock;
+    PlatformSpecificFOpen = null_fopen; PlatformSpecificFPuts = null_fputs; PlatformSpecificFClose = null_fclose;   // JUnit files go nowhere
 }
 extern "C" int verif_case(const uint8_t* data, size_t size) {
     Reader r(data, size);
@@ -242,7 +267,7 @@ extern "C" int verif_case(const uint8_t* data, size_t size) {
 }
 extern "C" int verif_known_repro(const char* key) {
     if (std::string(key) != "C10:lock-held-after-misuse") return -1;
-    g_b = BCase{0, 1, 8, 1};
+    g_b = BCase{0, 1, 8, 1, 0};
     std::string d; bool reported; long locks, unlocks; int relock;
     run_part_b(d, reported, locks, unlocks, relock);
     return (relock != 0 || locks != unlocks) ? 1 : 0;
